@@ -251,6 +251,41 @@ def oracle_components(h):
                           {"phase": ph}))
     fails += oracle_initial_values(h)
     fails += oracle_wide(h)
+    fails += oracle_side_writes(h)
+    return fails
+
+
+def oracle_side_writes(h):
+    """writes another peer makes to *another* entity while a phase lasts (one writer per key): at the drain that closes the
+    phase every connected peer holds what that writer wrote last"""
+    fails = []
+    binds = {b["h"]: b["uuid"] for b in h.events if b["ev"] == "bind"}
+    pending = {}      # (uuid, ty) -> (peer, bytes of its last write)
+    expect = None
+    for i, e in enumerate(h.events):
+        if e["ev"] == "phase":
+            pending = {}
+        elif e["ev"] == "side_write":
+            expect = (e["peer"], e["h"], e["ty"])
+        elif e["ev"] == "op" and e["op"] == "write" and expect and (e["peer"], e["h"], e["val"]["ty"]) == expect:
+            u = e.get("uuid") or binds.get(e["h"])
+            if u is not None and e["val"]["ty"] in h.registered:
+                pending[(u, e["val"]["ty"])] = (e["peer"], e["bytes"])
+            expect = None
+        elif e["ev"] == "drain" and e["quiescent"]:
+            for (u, ty), (w, want) in pending.items():
+                sw = last_state(h, i, w)
+                if sw is None or ent_of(sw, u) is None or (w != 0 and sw.get("client_state") != "Connected"):
+                    continue
+                for p in h.peers():
+                    st = last_state(h, i, p)
+                    if st is None or (p != 0 and st.get("client_state") != "Connected") or ent_of(st, u) is None:
+                        continue
+                    if comp_value(st, u, ty) != want:
+                        fails.append(("C02", "peer %d holds a value different from the most recent write of peer %d to another entity (written while "
+                                      "pushes of the same type were arriving)" % (p, w), {"uuid": u[:8], "ty": ty, "writer": w}))
+                        break
+            pending = {}
     return fails
 
 
@@ -1515,7 +1550,22 @@ def classify_promo(h, fails):
     binds = {b["h"]: b["uuid"] for b in h.events if b["ev"] == "bind"}
     touched = set()      # uuids some application touched while the hand-over was under way
     for a, b, old in windows:
-        for e in h.events[a:b]:
+        # the former host's part of the window starts when it has handled `NewHost` (its promoted client is disconnected, the
+        # flag is set): until then it is the host of an ordinary session and what its application does is delivered as ever
+        handled = b
+        for i in range(a, b):
+            e = h.events[i]
+            if e["ev"] == "frame" and e["peer"] == old and e.get("state") and (e["state"]["tracker"]["promo"] or not e["state"]["server_transport"]):
+                handled = i
+                break
+        for i in range(a, b):
+            e = h.events[i]
+            # (an operation needs its frames to get out: marked in one frame, announced in the next, on the wire after that — only
+            # what was followed by three whole frames of the former host before `NewHost` is certain to have left in time)
+            if e["ev"] == "op" and e.get("peer") == old and i < handled:
+                later = sum(1 for x in h.events[i:handled] if x["ev"] == "frame" and x["peer"] == old)
+                if later >= 3:
+                    continue
             # the recorded cases: anything the former host's application does; marks, links and despawns on the promoted peer
             # (a despawn there is D16 once more: the former host is a returning client and the snapshot cannot say 'drop it')
             # (a component written there is repaired by the snapshot the former host requests and stays checked)
